@@ -216,10 +216,14 @@ def ccNames : List (String × Nat) :=
   [("o", 0), ("no", 1), ("b", 2), ("ae", 3), ("e", 4), ("ne", 5), ("be", 6), ("a", 7), ("s", 8), ("ns", 9),
    ("p", 10), ("np", 11), ("l", 12), ("ge", 13), ("le", 14), ("g", 15)]
 
+/-- the 48 conditional mnemonics, written out (a table of literals, so that it evaluates inside proofs) -/
+def ccTable : List (String × (String × Nat)) :=
+  [("cmovo", ("cmov", 0)), ("cmovno", ("cmov", 1)), ("cmovb", ("cmov", 2)), ("cmovae", ("cmov", 3)), ("cmove", ("cmov", 4)), ("cmovne", ("cmov", 5)), ("cmovbe", ("cmov", 6)), ("cmova", ("cmov", 7)), ("cmovs", ("cmov", 8)), ("cmovns", ("cmov", 9)), ("cmovp", ("cmov", 10)), ("cmovnp", ("cmov", 11)), ("cmovl", ("cmov", 12)), ("cmovge", ("cmov", 13)), ("cmovle", ("cmov", 14)), ("cmovg", ("cmov", 15))] ++
+  [("seto", ("set", 0)), ("setno", ("set", 1)), ("setb", ("set", 2)), ("setae", ("set", 3)), ("sete", ("set", 4)), ("setne", ("set", 5)), ("setbe", ("set", 6)), ("seta", ("set", 7)), ("sets", ("set", 8)), ("setns", ("set", 9)), ("setp", ("set", 10)), ("setnp", ("set", 11)), ("setl", ("set", 12)), ("setge", ("set", 13)), ("setle", ("set", 14)), ("setg", ("set", 15))] ++
+  [("jo", ("j", 0)), ("jno", ("j", 1)), ("jb", ("j", 2)), ("jae", ("j", 3)), ("je", ("j", 4)), ("jne", ("j", 5)), ("jbe", ("j", 6)), ("ja", ("j", 7)), ("js", ("j", 8)), ("jns", ("j", 9)), ("jp", ("j", 10)), ("jnp", ("j", 11)), ("jl", ("j", 12)), ("jge", ("j", 13)), ("jle", ("j", 14)), ("jg", ("j", 15))]
+
 /-- `cmovne` ↦ ("cmov", 5) -/
-def splitCc (m : String) : Option (String × Nat) :=
-  ["cmov", "set", "j"].findSome? fun p =>
-    if m.startsWith p then (ccNames.lookup (m.drop p.length).toString).map (fun c => (p, c)) else none
+def splitCc (m : String) : Option (String × Nat) := ccTable.lookup m
 
 /-! ### shifts and rotates (SDM: SAL/SAR/SHL/SHR, RCL/RCR/ROL/ROR, SHLD, SHRD) -/
 
